@@ -1,9 +1,13 @@
 import JL.Lemmas.Monad
+import JL.Lemmas.C12
 /-!
 # C12 — `missing` / `missing_some` report exactly the keys that `var` cannot find
+
+Specification vocabulary (`ValidKey`, `isAbsent`, `isPresent`, `present`, `adjust`, `dedup`, `BadBefore`) is in
+`JL/Spec/Path.lean` (namespace `JL.Spec.Missing`); helper lemmas in `JL/Lemmas/C12.lean`.
 -/
 namespace JL.Props.C12
-open JL Json Data
+open JL Json Data JL.Spec.Missing JL.Lemmas.C12
 
 /-- the keys `missing` must report, in request order: non-null keys whose lookup finds nothing -/
 def absentKeys (data : Json) : List Json → Option (List Json)
@@ -48,7 +52,280 @@ theorem first_array_is_list (data : Json) (vals rest : List Json) :
     | arr x => right; exact ⟨x, vs, rfl⟩
     | _ => left; simp [missing]
 
+/-! ## `missing` -/
+
+/-- `first_array_is_list`, sharp form: whatever follows, and whatever the array contains, a first operand that
+is an array is the key list -/
+theorem first_array_is_list_sharp (data : Json) (vals rest : List Json) :
+    missing data (.arr vals :: rest) = missingFold data vals [] >>= fun ks => pure (.arr ks) := rfl
+
+/-- otherwise all operands are the key list -/
+theorem missing_adjust (data : Json) (args : List Json) :
+    missing data args = missingFold data (adjust args) [] >>= fun ks => pure (.arr ks) :=
+  missing_eq data args
+
+/-- the recursive specification in filter form, when every listed operand is a valid key -/
+theorem absentKeys_filter (data : Json) (ks : List Json) (hv : ∀ k ∈ ks, ValidKey k) :
+    absentKeys data ks = some (ks.filter (isAbsent data)) := by
+  have h1 := missingFold_spec data ks []
+  rw [missingFold_filter data ks [] hv] at h1
+  cases h : absentKeys data ks with
+  | none => simp [h] at h1
+  | some r => simpa [h] using h1.symm
+
+/-- **`missing_spec`.** With valid keys, `missing` returns, in request order, exactly the listed non-null
+keys whose lookup finds nothing. -/
+theorem missing_spec (data : Json) (args : List Json) (hv : ∀ k ∈ adjust args, ValidKey k) :
+    missing data args = ⟨[], .ok (.arr ((adjust args).filter (isAbsent data)))⟩ := by
+  rw [missing_adjust, missingFold_filter data _ [] hv]; rfl
+
+/-- an operand that is not a valid key anywhere in the list: error -/
+theorem missing_err (data : Json) (args : List Json) (hv : ∃ k ∈ adjust args, ¬ ValidKey k) :
+    missing data args = ⟨[], .err⟩ := by
+  rw [missing_adjust, missingFold_err data _ [] hv]; rfl
+
+theorem missing_ok_iff (data : Json) (args : List Json) :
+    (∃ v, missing data args = ⟨[], .ok v⟩) ↔ ∀ k ∈ adjust args, ValidKey k := by
+  constructor
+  · rintro ⟨v, hv⟩
+    apply Classical.byContradiction
+    intro h
+    have : ∃ k ∈ adjust args, ¬ ValidKey k := by simpa using h
+    rw [missing_err data args this] at hv
+    simp at hv
+  · intro h; exact ⟨_, missing_spec data args h⟩
+
+/-- order (and multiplicity) of the request is preserved: the result is a sub-list of the key list -/
+theorem missing_order (data : Json) (args : List Json) :
+    ((adjust args).filter (isAbsent data)).Sublist (adjust args) := List.filter_sublist
+
+/-- "absent" for `missing` is "absent" for `var`: a key is reported iff it is not the null key and `var` with
+a default returns that default **for every default** (`var` and `missing` call the same `get_key`). No validity
+hypothesis: an invalid operand is an error for both. -/
+theorem absent_iff_var (d k : Json) :
+    isAbsent d k = true ↔ keyOf k ≠ some .null ∧ ∀ s, var d [k, s] = ⟨[], .ok s⟩ := by
+  unfold isAbsent
+  cases hk : keyOf k with
+  | none => simp [var_bad d k _ hk]
+  | some key =>
+    simp only [var_of_key d k _ key hk]
+    have hne : ∀ v : Json, ¬ ∀ s : Json, v = s := fun v h => by
+      have h1 := h .null; have h2 := h (.bool true); rw [h1] at h2; cases h2
+    cases key with
+    | null => simp
+    | string str => cases hg : getKey d (.string str) <;> simp [hne, hg]
+    | number i => cases hg : getKey d (.number i) <;> simp [hne, hg]
+
+/-- the same with one *fresh* sentinel: one that `var` without default does not return for this key -/
+theorem absent_iff_var_fresh (d k s : Json) (hfresh : var d [k] ≠ ⟨[], .ok s⟩) :
+    isAbsent d k = true ↔ keyOf k ≠ some .null ∧ var d [k, s] = ⟨[], .ok s⟩ := by
+  unfold isAbsent
+  cases hk : keyOf k with
+  | none => simp [var_bad d k _ hk]
+  | some key =>
+    simp only [var_of_key d k _ key hk] at hfresh ⊢
+    cases key with
+    | null => simp
+    | string str => cases hg : getKey d (.string str) <;> simp_all
+    | number i => cases hg : getKey d (.number i) <;> simp_all
+
+/-- **`missing_var`.** `k` is in the result of `missing` iff it is listed, is not the null key, and
+`{"var": [k, s]}` on the same data returns the default `s`, for every `s`. -/
+theorem missing_var (d : Json) (args : List Json) (hv : ∀ k ∈ adjust args, ValidKey k) :
+    ∃ ks, missing d args = ⟨[], .ok (.arr ks)⟩ ∧
+      ∀ k, k ∈ ks ↔ (k ∈ adjust args ∧ keyOf k ≠ some .null ∧ ∀ s, var d [k, s] = ⟨[], .ok s⟩) := by
+  refine ⟨_, missing_spec d args hv, fun k => ?_⟩
+  simp only [List.mem_filter, absent_iff_var]
+
+/-- with a sentinel that occurs nowhere as a found value or as `null` -/
+theorem missing_var_fresh (d : Json) (args : List Json) (hv : ∀ k ∈ adjust args, ValidKey k) (s : Json)
+    (hfresh : ∀ k ∈ adjust args, var d [k] ≠ ⟨[], .ok s⟩) :
+    ∃ ks, missing d args = ⟨[], .ok (.arr ks)⟩ ∧
+      ∀ k, k ∈ ks ↔ (k ∈ adjust args ∧ keyOf k ≠ some .null ∧ var d [k, s] = ⟨[], .ok s⟩) := by
+  refine ⟨_, missing_spec d args hv, fun k => ?_⟩
+  simp only [List.mem_filter]
+  constructor
+  · rintro ⟨h1, h2⟩; exact ⟨h1, (absent_iff_var_fresh d k s (hfresh k h1)).1 h2⟩
+  · rintro ⟨h1, h2⟩; exact ⟨h1, (absent_iff_var_fresh d k s (hfresh k h1)).2 h2⟩
+
+/-- a key present with a null or empty value is not missing; null keys are ignored -/
+example : missing (.obj [("a".toList, .null), ("b".toList, .str []), ("c".toList, .arr [])])
+    [.str "a".toList, .null, .str "b".toList, .str "z".toList, .str "c".toList, .str "z".toList, .num (.pos 0)] =
+    ⟨[], .ok (.arr [.str "z".toList, .str "z".toList, .num (.pos 0)])⟩ := by decide +kernel
+example : ∀ k ∈ adjust [.str "a".toList, .null, .num (.pos 0), .num (.neg 3)], ValidKey k := by decide +kernel
+example : missing .null [.bool true] = ⟨[], .err⟩ := by decide +kernel
+
+/-- from the public entry point, literal operands -/
+theorem apply_missing_literals (xs : List Json) (d : Json) (hl : ∀ x ∈ xs, JL.Lemmas.C11.Literal x) :
+    apply (.obj [("missing".toList, .arr xs)]) d = missing d xs :=
+  JL.Lemmas.C12.apply_missing_literals xs d hl
+
+/-- from the public entry point, computed operands (`merge`, `var`, …): they are evaluated first -/
+theorem apply_missing (xs : List Json) (d : Json) (hc : check (.obj [("missing".toList, .arr xs)]) = true) :
+    apply (.obj [("missing".toList, .arr xs)]) d = runList xs d >>= missing d :=
+  JL.Lemmas.C12.apply_missing xs d hc
+
+/-! ## `missing_some` -/
+
+/-- **`missing_some_spec`** (general form). If no invalid key stands before the position where the `n`-th present
+key has been seen, the early-exit fold of the code gives the non-short-circuit answer: `[]` when at least `n`
+list positions hold a key that is found, otherwise the distinct absent keys in order of first occurrence.
+An absent key never counts, however often it is listed (`present` counts found positions only). -/
+theorem missing_some_spec_general (d : Json) (thr : Num) (n : Nat) (hn : thr.asU64 = some n)
+    (keys rest : List Json) (hv : ¬ BadBefore d n keys) :
+    missingSome d (.num thr :: .arr keys :: rest) =
+      ⟨[], .ok (.arr (if n ≤ present d keys then [] else dedup (keys.filter (isAbsent d))))⟩ :=
+  missingSome_ok d thr n hn keys rest hv
+
+/-- **`missing_some_spec`** under the guard "all keys valid" -/
+theorem missing_some_spec (d : Json) (thr : Num) (n : Nat) (hn : thr.asU64 = some n)
+    (keys rest : List Json) (hv : ∀ k ∈ keys, ValidKey k) :
+    missingSome d (.num thr :: .arr keys :: rest) =
+      ⟨[], .ok (.arr (if n ≤ present d keys then [] else dedup (keys.filter (isAbsent d))))⟩ :=
+  missingSome_ok d thr n hn keys rest (not_badBefore_of_valid d n keys hv)
+
+/-- error branch: an invalid key met before the threshold is reached -/
+theorem missing_some_err (d : Json) (thr : Num) (n : Nat) (hn : thr.asU64 = some n)
+    (keys rest : List Json) (hb : BadBefore d n keys) :
+    missingSome d (.num thr :: .arr keys :: rest) = ⟨[], .err⟩ :=
+  missingSome_err d thr n hn keys rest hb
+
+/-- … and only then -/
+theorem missing_some_err_iff (d : Json) (thr : Num) (n : Nat) (hn : thr.asU64 = some n) (keys rest : List Json) :
+    missingSome d (.num thr :: .arr keys :: rest) = ⟨[], .err⟩ ↔ BadBefore d n keys := by
+  constructor
+  · intro h
+    apply Classical.byContradiction
+    intro hb
+    rw [missing_some_spec_general d thr n hn keys rest hb] at h
+    simp at h
+  · exact missing_some_err d thr n hn keys rest
+
+/-- the other operand shapes: a threshold that is not a `u64`, a key operand that is not an array -/
+theorem missing_some_bad_threshold (d thr ks : Json) (rest : List Json)
+    (h : ∀ n, thr = .num n → n.asU64 = none) : missingSome d (thr :: ks :: rest) = ⟨[], .err⟩ := by
+  unfold missingSome
+  cases thr <;> simp
+  rename_i n; simp [h n rfl]
+
+example : ∀ n, Json.str "2".toList = .num n → n.asU64 = none := by intro n h; cases h
+example : missingSome .null [.num (.neg 1), .arr []] = ⟨[], .err⟩ ∧ missingSome .null [.num (.pos 1), .str []] = ⟨[], .err⟩ := by
+  decide +kernel
+
+theorem missing_some_not_array (d : Json) (thr : Num) (n : Nat) (hn : thr.asU64 = some n) (ks : Json) (rest : List Json)
+    (h : ∀ xs, ks ≠ .arr xs) : missingSome d (.num thr :: ks :: rest) = ⟨[], .err⟩ := by
+  unfold missingSome
+  cases ks <;> simp [hn]
+  exact absurd rfl (h _)
+
+/-- threshold 0: always `[]` — nothing is examined, not even invalid keys -/
+theorem missing_some_zero (d : Json) (thr : Num) (hn : thr.asU64 = some 0) (keys rest : List Json) :
+    missingSome d (.num thr :: .arr keys :: rest) = ⟨[], .ok (.arr [])⟩ := by
+  rw [missing_some_spec_general d thr 0 hn keys rest (by rintro ⟨_, _, _, _, _, h⟩; omega)]
+  simp
+
+/-- threshold above the number of present keys (in particular above the number of keys): all distinct absent keys -/
+theorem missing_some_not_reached (d : Json) (thr : Num) (n : Nat) (hn : thr.asU64 = some n)
+    (keys rest : List Json) (hv : ∀ k ∈ keys, ValidKey k) (hlt : present d keys < n) :
+    missingSome d (.num thr :: .arr keys :: rest) = ⟨[], .ok (.arr (dedup (keys.filter (isAbsent d))))⟩ := by
+  rw [missing_some_spec d thr n hn keys rest hv]
+  have : ¬ n ≤ present d keys := by omega
+  simp [this]
+
+theorem missing_some_above_length (d : Json) (thr : Num) (n : Nat) (hn : thr.asU64 = some n)
+    (keys rest : List Json) (hv : ∀ k ∈ keys, ValidKey k) (hlt : keys.length < n) :
+    missingSome d (.num thr :: .arr keys :: rest) = ⟨[], .ok (.arr (dedup (keys.filter (isAbsent d))))⟩ :=
+  missing_some_not_reached d thr n hn keys rest hv (Nat.lt_of_le_of_lt (present_le_length d keys) hlt)
+
+/-- threshold reached: `[]` -/
+theorem missing_some_reached (d : Json) (thr : Num) (n : Nat) (hn : thr.asU64 = some n)
+    (keys rest : List Json) (hv : ∀ k ∈ keys, ValidKey k) (hle : n ≤ present d keys) :
+    missingSome d (.num thr :: .arr keys :: rest) = ⟨[], .ok (.arr [])⟩ := by
+  rw [missing_some_spec d thr n hn keys rest hv]; simp [hle]
+
+/-- **an absent key is never counted as present, however many times it is listed**: if every listed key is absent,
+then for every threshold `n ≥ 1` the result is the list of distinct keys -/
+theorem missing_some_all_absent (d : Json) (thr : Num) (n : Nat) (hn : thr.asU64 = some n) (h1 : 1 ≤ n)
+    (keys rest : List Json) (hv : ∀ k ∈ keys, ValidKey k) (ha : ∀ k ∈ keys, isAbsent d k = true) :
+    missingSome d (.num thr :: .arr keys :: rest) = ⟨[], .ok (.arr (dedup keys))⟩ := by
+  have hp : present d keys = 0 := by
+    simp only [present, List.countP_eq_zero]
+    intro k hk
+    have := ha k hk
+    unfold isAbsent at this
+    unfold isPresent
+    cases hkk : keyOf k with
+    | none => simp
+    | some key =>
+      cases key <;> simp_all
+  rw [missing_some_not_reached d thr n hn keys rest hv (by omega)]
+  have : keys.filter (isAbsent d) = keys := List.filter_eq_self.2 ha
+  rw [this]
+
+/-- `present` counts exactly the positions whose key is found; absent, null and invalid operands add nothing -/
+theorem present_cons (d k : Json) (rest : List Json) :
+    present d (k :: rest) = (if isPresent d k then 1 else 0) + present d rest :=
+  JL.Lemmas.C12.present_cons d k rest
+
+theorem absent_not_present (d k : Json) (h : isAbsent d k = true) : isPresent d k = false := by
+  unfold isAbsent at h; unfold isPresent
+  cases hkk : keyOf k with
+  | none => simp
+  | some key => cases key <;> simp_all
+
+/-! ### what `dedup` is -/
+
+/-- a sub-list of its argument (order of first occurrence) … -/
+theorem dedup_sublist (xs : List Json) : (dedup xs).Sublist xs := dedupFrom_sublist [] xs
+/-- … whose elements are pairwise different for `Json.beq` (the `==` of `Vec::contains`) … -/
+theorem dedup_pairwise (xs : List Json) : (dedup xs).Pairwise (fun a b => Json.beq a b = false) :=
+  dedupFrom_pairwise [] xs
+/-- … and every element of the argument is kept or is `beq`-equal to a kept one -/
+theorem dedup_covers (xs : List Json) (x : Json) (hx : x ∈ xs) : x ∈ dedup xs ∨ Json.contains (dedup xs) x = true := by
+  simpa [dedup] using dedupFrom_covers [] xs x hx
+/-- on valid keys `Json.beq` is equality, so `dedup` has the same members and no duplicates -/
+theorem beq_valid_key (a b : Json) (ha : ValidKey a) : Json.beq a b = true ↔ a = b := beq_valid a b ha
+theorem mem_dedup (xs : List Json) (hv : ∀ k ∈ xs, ValidKey k) (k : Json) : k ∈ dedup xs ↔ k ∈ xs := by
+  simpa [dedup] using mem_dedupFrom [] xs hv (by simp) k
+theorem nodup_dedup (xs : List Json) (hv : ∀ k ∈ xs, ValidKey k) : (dedup xs).Nodup := nodup_dedupFrom [] xs hv
+
+/-- from the public entry point, literal operands -/
+theorem apply_missing_some_literals (a b d : Json) (ha : JL.Lemmas.C11.Literal a) (hb : JL.Lemmas.C11.Literal b) :
+    apply (.obj [("missing_some".toList, .arr [a, b])]) d = missingSome d [a, b] :=
+  JL.Lemmas.C12.apply_missing_some_literals a b d ha hb
+
+theorem apply_missing_some (xs : List Json) (d : Json) (hc : check (.obj [("missing_some".toList, .arr xs)]) = true) :
+    apply (.obj [("missing_some".toList, .arr xs)]) d = runList xs d >>= missingSome d :=
+  JL.Lemmas.C12.apply_missing_some xs d hc
+
+/-! ### non-vacuity -/
+
+/-- the repaired defect: `{"missing_some":[2,["a","a","b"]]}` on `{"b":1}` gives `["a"]` -/
 example : apply (.obj [("missing_some".toList, .arr [.num (.pos 2), .arr [.str "a".toList, .str "a".toList, .str "b".toList]])])
     (.obj [("b".toList, .num (.pos 1))]) = ⟨[], .ok (.arr [.str "a".toList])⟩ := by decide +kernel
+
+/-- the hypotheses of `missing_some_spec` on that input, and both sides of its conclusion -/
+example : let d := Json.obj [("b".toList, .num (.pos 1))]
+    let keys := [Json.str "a".toList, .str "a".toList, .str "b".toList]
+    (Num.pos 2).asU64 = some 2 ∧ (∀ k ∈ keys, ValidKey k) ∧ present d keys = 1 ∧
+    dedup (keys.filter (isAbsent d)) = [.str "a".toList] ∧
+    missingSome d [.num (.pos 2), .arr keys] = ⟨[], .ok (.arr [.str "a".toList])⟩ := by decide +kernel
+
+/-- thresholds 0 … n+1 on that input -/
+example : let d := Json.obj [("b".toList, .num (.pos 1))]
+    let keys := Json.arr [.str "a".toList, .str "a".toList, .str "b".toList]
+    missingSome d [.num (.pos 0), keys] = ⟨[], .ok (.arr [])⟩ ∧
+    missingSome d [.num (.pos 1), keys] = ⟨[], .ok (.arr [])⟩ ∧
+    missingSome d [.num (.pos 3), keys] = ⟨[], .ok (.arr [.str "a".toList])⟩ ∧
+    missingSome d [.num (.pos 4), keys] = ⟨[], .ok (.arr [.str "a".toList])⟩ := by decide +kernel
+
+/-- an invalid key after the threshold is reached is never looked at; before, it is an error -/
+example : let d := Json.obj [("b".toList, .num (.pos 1))]
+    missingSome d [.num (.pos 1), .arr [.str "b".toList, .bool true]] = ⟨[], .ok (.arr [])⟩ ∧
+    missingSome d [.num (.pos 1), .arr [.bool true, .str "b".toList]] = ⟨[], .err⟩ ∧
+    missingSome d [.num (.pos 2), .arr [.str "b".toList, .bool true]] = ⟨[], .err⟩ := by decide +kernel
+
+example : BadBefore (.obj [("b".toList, .num (.pos 1))]) 2 [.str "b".toList, .bool true] :=
+  ⟨[.str "b".toList], .bool true, [], rfl, by decide +kernel, by decide +kernel⟩
 
 end JL.Props.C12
